@@ -125,11 +125,10 @@ func c15Run(c c15Case) (out Outcome) {
 				}
 				return rem
 			}
+			// (the chunk size is the server's choice - Hadoop's default is one byte above the
+			// client's own, and it grows with io.compression.codec.snappy.buffersize)
 			n := c.ChunkSizes[i%len(c.ChunkSizes)]
 			i++
-			if n > wire.SnappyChunk {
-				n = wire.SnappyChunk
-			}
 			return n
 		})
 		out.Labels = append(out.Labels, "server_stream")
@@ -266,7 +265,7 @@ func c15Gen(t *rapid.T) c15Case {
 		}
 		nc := rapid.IntRange(0, 4).Draw(t, "nchunktape")
 		for i := 0; i < nc; i++ {
-			c.ChunkSizes = append(c.ChunkSizes, rapid.SampledFrom([]int{1, 2, 7, 100, 4096, 65536, chunk - 1, chunk}).Draw(t, "chunk"))
+			c.ChunkSizes = append(c.ChunkSizes, rapid.SampledFrom([]int{1, 2, 7, 100, 4096, 65536, chunk - 1, chunk, chunk + 1, 2 * chunk, 873782}).Draw(t, "chunk"))
 		}
 		// one-byte chunks on a large payload would be slow without adding anything
 		if c.Size > 20000 {
